@@ -73,6 +73,8 @@ type Node struct {
 	cln       *fakeCln // tier 3: the simulated lightningd behind the real clightning adapter
 	clnClient *clightning.ClightningClient
 	lndPending []inMsg
+	lndSubs    []*lndQueue // custom-message subscriptions besides the swap service's
+	lndSwapSubscribing bool
 	Recovered bool
 	LastHeight map[string]uint32 // last height served per chain
 	servedLog  map[string][]servedAt
@@ -496,7 +498,7 @@ func (n *Node) Crash(restartMs int) {
 	if n.lnd != nil {
 		n.lnd.release()
 	}
-	n.lnd, n.lndInbox, n.lndClient, n.lndPending = nil, nil, nil, nil
+	n.lnd, n.lndInbox, n.lndClient, n.lndPending, n.lndSubs = nil, nil, nil, nil, nil
 	n.cln, n.clnClient, n.lwk = nil, nil, nil
 	n.Svc = nil
 	w.Observe(&Obs{Node: n.ID, Inc: n.inc, Kind: "crash"})
@@ -536,22 +538,43 @@ func (n *Node) deliver(from int, typ int, payload []byte, idx int) {
 		return
 	}
 	w.Observe(&Obs{Node: n.ID, Inc: n.inc, Kind: "deliver", Msg: &MsgObs{From: from, To: n.ID, Type: typ, Payload: payload, Idx: idx, SwapID: swapIDOf(payload)}})
-	if typ == MsgPoll || typ == MsgRequestPoll {
+	poll := typ == MsgPoll || typ == MsgRequestPoll
+	if poll && !n.ext.psReal {
 		n.deliverPeersync(from, typ, payload)
 		return
 	}
+	if poll && n.clnClient != nil {
+		// tier 3 with peer-sync's own CLN adapter: the custommsg hook gets every message, the
+		// adapter's handler is one of the plugin's message handlers
+		c := n.clnClient
+		w.Sim.Spawn(n.ID, fmt.Sprintf("poll#%d", idx), func() {
+			n.checkAlive()
+			rt.Yield("deliver")
+			c.SimDeliver(w.Nodes[from].Pubkey, typ, payload)
+		})
+		return
+	}
 	if n.lnd != nil {
-		// tier 2: lnd hands custom messages to whoever is subscribed right now
+		// tier 2: lnd hands custom messages to whoever is subscribed right now (every subscriber
+		// gets every message: the swap service's listener, peer-sync's own adapter)
 		n.mu.Lock()
 		q := n.lndInbox
+		subs := append([]*lndQueue(nil), n.lndSubs...)
 		n.mu.Unlock()
-		if q == nil {
+		if q == nil && len(subs) == 0 {
 			w.Probe("lnd:custom-message-without-subscriber-lost")
 			return
 		}
 		pk, _ := hex.DecodeString(w.Nodes[from].Pubkey)
-		n.lndPending = append(n.lndPending, inMsg{from, typ, payload, idx})
-		q.push(&lnrpc.CustomMessage{Peer: pk, Type: uint32(typ), Data: payload})
+		if q != nil {
+			n.lndPending = append(n.lndPending, inMsg{from, typ, payload, idx})
+			q.push(&lnrpc.CustomMessage{Peer: pk, Type: uint32(typ), Data: payload})
+		} else if !poll {
+			w.Probe("lnd:custom-message-without-subscriber-lost")
+		}
+		for _, s := range subs {
+			s.push(&lnrpc.CustomMessage{Peer: pk, Type: uint32(typ), Data: payload})
+		}
 		return
 	}
 	if n.Flavor == "lnd" {
